@@ -11,7 +11,7 @@
      cell_good f c : cell c is acceptable for field f (nested: a row of acceptable cells for a non-empty sub-schema)
      arg_good f a  : constructor argument a (python list, or Inner( *columns)) holds acceptable values for field f *)
 From Coq Require Import String ZArith List Bool Permutation.
-From BNP Require Import Base.Prims Model.C19 Corr.C19 Proofs.C19 Proofs.C19_rows Proofs.C19_prog Proofs.C19_link Gen.C19 Bridge.C19.
+From BNP Require Import Base.Prims Model.C19 Corr.C19 Proofs.C19 Proofs.C19_rows Proofs.C19_prog Proofs.C19_link Proofs.C19_example Gen.C19 Bridge.C19.
 Import ListNotations.
 Open Scope Z_scope.
 
@@ -345,28 +345,24 @@ Print Assumptions C19_operands_unchanged.
 
 (* non-vacuity: a 3-row table with an identifier (width 4), a ragged int-list, an int and a nested column; reversing
    it, masking it and concatenating it with a table whose identifier column is wider give the expected rows *)
-Definition ex_t : ctable :=
-  [CBase (ColPad 4 [unhex "61620000"%string; unhex "63000000"%string; unhex "64656667"%string]);
-   CBase (ColRag (RNum DI) [4; 8; 12] [2; 0; 1]);
-   CBase (ColNum DI [20; 12; 16]);
-   CNest [ColNum DI [4; 8; 12]; ColRag RStr [113; 114; 115] [1; 0; 2]]].
-Definition ex_u : ctable :=
-  [CBase (ColPad 6 [unhex "787878787878"%string]); CBase (ColRag (RNum DF) [] [0]); CBase (ColNum DI [4]);
-   CNest [ColNum DI [28]; ColRag RStr [] [0]]].
-Example C19_nonvacuous :
+Theorem C19_nonvacuous :
   aligned ex_t = true /\ Forall col_wf ex_t /\ Forall col_wf ex_u
   /\ m_to_rows (m_select [2%nat; 0%nat] ex_t) = sel [2%nat; 0%nat] (m_to_rows ex_t)
   /\ (exists t, m_cat ex_t ex_u = Some t /\ length (m_to_rows t) = 4%nat
         /\ nth 0 t (CNest []) = CBase (ColPad 6 [unhex "616200000000"%string; unhex "630000000000"%string; unhex "646566670000"%string; unhex "787878787878"%string]))
   /\ (exists t', m_sort_by_gen false 2 ex_t = Some t'
         /\ map (rowkey 2) (m_to_rows t') = [12; 16; 20]).
-Proof.
-  split; [reflexivity|]. split.
-  { repeat constructor; vm_compute; try reflexivity; repeat constructor; intros H; discriminate H. }
-  split.
-  { repeat constructor; vm_compute; try reflexivity; repeat constructor; intros H; discriminate H. }
-  split; [vm_compute; reflexivity|]. split.
-  - eexists. split; [vm_compute; reflexivity|]. split; vm_compute; reflexivity.
-  - eexists. split; [vm_compute; reflexivity|]. vm_compute. reflexivity.
-Qed.
+Proof. exact nonvacuous1. Qed.
+Print Assumptions C19_nonvacuous.
 
+(* non-vacuity of the phase-3 hypotheses (Proofs/C19_example.v): a schema with identifier, int, strand and nested-table
+   fields, two operand tables built from acceptable arguments (Inv by C19_construct), and a 16-step program using
+   every kind of operation — erroneous ones included: a replacement column of the wrong length, indices out of
+   range — that meets run_good; exp_trace lists the model's row counts (100+n: rows only, -1: error) per step *)
+Theorem C19_program_nonvacuous :
+  m_construct exp_sch exp_a0 = Some exp_t0 /\ m_construct exp_sch exp_a1 = Some exp_t1
+  /\ args_nice exp_sch exp_a0 /\ args_nice exp_sch exp_a1
+  /\ Inv exp_sch exp_t0 /\ Inv exp_sch exp_t1 /\ run_good exp_sch exp_sch exp_t0 exp_t1 exp_prog
+  /\ exp_trace = [3; 3; 3; 3; 3; 3; 2; 2; 2; -1; 101; -1; -1; 4; 4; 104].
+Proof. exact program_nonvacuous. Qed.
+Print Assumptions C19_program_nonvacuous.
